@@ -7,6 +7,11 @@ Line protocol for K_C13 (names are numbers, 0 = the logged-in user; connection i
                         handlers suspended in it                                  → `ok` | `no-server` | `busy`
   `pp n…`               PotentialParents, every entry reachable (one requested connection each)
   `in n`                incoming distributed connection of user n
+  `ine n [L<v>|R<n>]…`  the same, the listed branch values announced right behind the PeerInit (= `in n`, then the
+                        announcements in order); not while the server socket is blocked      → `ok` | `unsupported`
+  `ppe n [L<v>|R<n>]…`  PotentialParents with the single entry n whose remote end announces the listed branch values
+                        by itself as soon as the connection stands (= `pp n`, then the announcements in order on the new
+                        connection); not while the server socket is blocked                → `ok` | `no-server` | `unsupported`
   `level c v` `root c n` `close c`                                                → `ok` | `no-conn` | `busy`
   `minspeed v` `ratio v` `stats n speed` `reset`                                  → `ok` | `no-server` | `busy`
   `sblock`              the server socket stops draining (`XOp.srvBlock`)         → `ok` | `no-server`
@@ -68,6 +73,14 @@ def withConn (s : Drv) (c : Nat) (op : Op) : Drv × String :=
 def onConn (s : Drv) (c : Nat) (op : XOp) : Drv × String :=
   if aliveB s.x c then ({ s with x := xstep s.x op }, "ok") else (s, "no-conn")
 
+/-- `L<v>` = DistributedBranchLevel(v), `R<n>` = DistributedBranchRoot(name n), sent on connection `c` -/
+def anns (c : Nat) (ws : List String) : Option (List Op) :=
+  ws.mapM fun w =>
+    match w.toList with
+    | 'L' :: r => (String.ofList r).toNat?.map (Op.level c ·)
+    | 'R' :: r => (String.ofList r).toNat?.map (Op.root c ·)
+    | _ => none
+
 def handle (s : Drv) (line : String) : Drv × String :=
   match (line.splitOn " ").filter (· ≠ "") with
   | ["new"] => ({}, "new")
@@ -83,6 +96,25 @@ def handle (s : Drv) (line : String) : Drv × String :=
     match nats ws with
     | some ns => withServer s (Op.potentialParents ns :: ns.map (fun n => Op.initialized n true))
     | none => (s, "bad-op")
+  | "ppe" :: n :: ws =>
+    -- one proposed parent that announces itself as soon as the connection stands: the same handlers, one after the
+    -- other (what happens inside the connection request meanwhile is not part of this model)
+    match n.toNat?, anns s.x.d.nextConn ws with
+    | some n, some as =>
+      if s.x.d.session.isNone then (s, "no-server")
+      else if s.x.srvBlocked then (s, "unsupported")
+      else
+        let (s1, st) := withServer s [Op.potentialParents [n], Op.initialized n true]
+        if st != "ok" then (s1, st)
+        else ({ s1 with x := as.foldl (fun x op => xstep x (.base op)) s1.x }, "ok")
+    | _, _ => (s, "bad-op")
+  | "ine" :: n :: ws =>
+    -- an incoming connection whose announcements lie in the socket right behind its PeerInit
+    match n.toNat?, anns s.x.d.nextConn ws with
+    | some n, some as =>
+      if s.x.srvBlocked then (s, "unsupported")
+      else ({ s with x := as.foldl (fun x op => xstep x (.base op)) (xstep s.x (.base (.initialized n false))) }, "ok")
+    | _, _ => (s, "bad-op")
   | ["in", n] =>
     match n.toNat? with
     | some n => ({ s with x := xstep s.x (.base (.initialized n false)) }, "ok")
